@@ -152,13 +152,15 @@ fn segment(spec: &'static LangSpec) -> BoxedStrategy<String> {
         "ruby" => &["=begin\nTeh block comment.\n=end", "# frozen_string_literal: true", "#!/usr/bin/env ruby", "# :nodoc:"],
         "haskell" => &["{-# LANGUAGE OverloadedStrings #-}", "-- | Teh haddock", "-- ^ teh", "{- | teh -}", "{-", "--"],
         "c" | "cpp" => &["/* [ */", "#include <teh.h>", "#define TEH 1 // teh", "/**< teh */", "//!< teh", "/*", "//\\\nteh continued"],
-        "java" | "scala" => &["/** {@link Teh} */", "/** @param teh the teh */", "/** {@code teh */", "/** <p>Teh.</p> */", "/**", "/** {@link", "/** {@ */"],
+        "scala" => &["/* off: val a = 1 /* x */ val b = 2 /* y */ */", "/** outer /* inner teh */ more /* second */ end */", "/** {@link Teh} */", "// teh", "/**", "/* /* /* deep */ */ */"],
+        "java" => &["/** {@link Teh} */", "/** @param teh the teh */", "/** {@code teh */", "/** <p>Teh.</p> */", "/**", "/** {@link", "/** {@ */"],
         "javascript" | "typescript" | "javascriptreact" | "typescriptreact" => &["/** {@link Teh} */", "/** @param {string} teh - The teh. */", "// @ts-ignore teh", "/** {@link", "/* eslint-disable */", "// - [ ", "/** @returns {Promise<Teh>} */"],
         "php" => &["<?php // teh", "<?php /** @var Teh $teh */", "?> teh html <?php", "# teh", "<?php"],
         "toml" => &["# teh", "[teh] # wrold", "#"],
         "cmake" => &["#[[ teh bracket comment ]]", "#[=[ teh ]=]", "# teh"],
         "csharp" => &["/// <summary>Teh summary.</summary>", "#region teh", "// teh", "/// <param name=\"teh\">wrold</param>"],
-        "swift" | "dart" => &["/// - Parameter teh: wrold", "// MARK: - teh", "/** teh */", "///"],
+        "rust" | "haskell_nested" => &["/* outer /* inner */ /* second */ teh */"],
+        "swift" | "dart" => &["/* outer /* inner teh */ mid /* second */ end */","/// - Parameter teh: wrold", "// MARK: - teh", "/** teh */", "///"],
         "nix" => &["# teh", "/* teh */", "/**\n  teh\n*/"],
         _ => &["# teh", "// teh"],
     };
